@@ -144,15 +144,17 @@ class C19(Prop):
         # files that resolve to the SAME assembly name (same stem in two directories; one --name for
         # all), the later one clean: the earlier file's report must not be lost
         clean = "clean_sc\t1\t9\t1\tW\tclean_ctg\t1\t9\t+\n"
-        for sub, text in (("v1", buf.getvalue()), ("v2", clean)):
+        for sub, text in (("v1", buf.getvalue()), ("v2", clean), ("v3", buf.getvalue())):
             (d / sub).mkdir(exist_ok=True)
             (d / sub / "same.agp").write_text(text)
         out["samename"] = []
         for args in (["--qc-overlaps", str(d / "v1" / "same.agp"), str(d / "v2" / "same.agp")],
-                     ["--qc-overlaps", "--name", "given", str(d / "first.agp"), str(d / "v2" / "same.agp")]):
+                     ["--qc-overlaps", "--name", "given", str(d / "first.agp"), str(d / "v2" / "same.agp")],
+                     ["--qc-overlaps", str(d / "v1" / "same.agp"), str(d / "v3" / "same.agp")]):
             r3 = CliRunner().invoke(asm_format.cli, args)
             secs = re.split(r"Overlaps detected in assembly '([^']*)'", r3.stderr)
-            out["samename"].append({"exit": r3.exit_code, "stdout_ok": r3.stdout == buf.getvalue() + clean,
+            second = buf.getvalue() if "v3" in args[-1] else clean
+            out["samename"].append({"exit": r3.exit_code, "stdout_ok": r3.stdout == buf.getvalue() + second,
                                     "sections": [[secs[i], conv(re.findall(pat, secs[i + 1]))] for i in range(1, len(secs) - 1, 2)]})
         return out
 
@@ -247,10 +249,10 @@ class C19(Prop):
             wantsec = [[n, wantcli] for n in ("first", "second")] if wantcli else []
             if [[n, sorted(ps)] for n, ps in m["sections"]] != wantsec:
                 return f"asm-format on two files reported {m['sections']}, expected {wantsec}"
-            for nm, sn in zip(("same", "given"), c.get("samename", [])):
+            for (nm, times), sn in zip((("same", 1), ("given", 1), ("same", 2)), c.get("samename", [])):
                 if sn["exit"] != 0 or not sn["stdout_ok"]:
                     return f"asm-format --qc-overlaps on two same-named inputs failed or altered output: exit {sn['exit']}"
-                wantsec = [[nm, wantcli]] if wantcli else []
+                wantsec = [[nm, wantcli]] * times if wantcli else []
                 if [[n, sorted(ps)] for n, ps in sn["sections"]] != wantsec:
                     return (f"asm-format on two inputs named {nm!r} (the second without overlaps) reported "
                             f"{sn['sections']}, expected {wantsec}")
